@@ -286,19 +286,15 @@ fn c10_metrics() {
     check_bool("metrics:is_stored", is_stored == store.records.contains_key(&probe));
     if has_range {
         cover("with_range");
-        // ghost count with the boundary accepted either way: #(d < r) <= reported <= #(d <= r)
-        let mut lo = 0usize;
-        let mut hi = 0usize;
+        // "within the responsible range" is what clean-up keeps: clean-up removes the records at distance >= range
+        // (c10_cleanup decides that boundary), so the quoted figure is the number of records at distance < range
+        let mut within = 0usize;
         for k in store.records.keys() {
-            let d = dist_of(store, k);
-            if d.slt(range).get() {
-                lo += 1;
-            }
-            if d.sle(range).get() {
-                hi += 1;
+            if dist_of(store, k).slt(range).get() {
+                within += 1;
             }
         }
-        check_bool("metrics:close_records_stored_is_count_within_range", lo <= m.close_records_stored && m.close_records_stored <= hi);
+        check_bool("metrics:close_records_stored_is_count_within_range", m.close_records_stored == within);
     } else {
         cover("without_range");
         check_bool("metrics:close_records_stored_is_total", m.close_records_stored == n_held);
